@@ -66,17 +66,18 @@ Section KeeperProofs.
   Lemma create_shape s t from to start lp0 vp0 merge deleg s' r :
     create blocked bond s t from to start lp0 vp0 merge deleg = (s', r) ->
     (r <> OK /\ s' = s) \/
-    (r = OK /\ blocked to = false /\
+    (r = OK /\ blocked to = false /\ basic_ok lp0 vp0 = true /\
      let '(lp, vp, lc, vc) := with_defaults lp0 vp0 in
+     coin_eq vc lc = true /\
      exists va', send (set_acct s to (Claw va')) t from to vc = (s', OK) /\
        ((accts s !! to = None /\ va' = new_account from vc start lp vp) \/
         (exists va, accts s !! to = Some (Claw va) /\ merge = true /\ from = funder va /\
                     add_grant bond va start lp vp vc deleg = Some va'))).
   Proof.
-    unfold create. destruct (negb (basic_ok lp0 vp0)); [intros [= <- <-]; by left|].
+    unfold create. destruct (basic_ok lp0 vp0); cbn [negb]; [|intros [= <- <-]; by left].
     destruct (blocked to); [intros [= <- <-]; by left|].
-    destruct (with_defaults lp0 vp0) as [[[lp vp] lc] vc].
-    destruct (negb _); [intros [= <- <-]; by left|].
+    destruct (with_defaults lp0 vp0) as [[[lp vp] lc] vc]. fold (coin_eq vc lc).
+    destruct (coin_eq vc lc); cbn [negb]; [|intros [= <- <-]; by left].
     destruct (accts s !! to) as [[|va]|] eqn:E.
     - intros [= <- <-]. left. by destruct merge.
     - destruct merge; cbn [negb]; [|intros [= <- <-]; by left].
@@ -93,22 +94,23 @@ Section KeeperProofs.
   Lemma convert_shape s t from to start lp0 vp0 merge deleg s' r :
     convert blocked bond fixed s t from to start lp0 vp0 merge deleg = (s', r) ->
     (r <> OK /\ s' = s) \/
-    (r = OK /\ blocked to = false /\
+    (r = OK /\ blocked to = false /\ basic_ok lp0 vp0 = true /\
      let '(lp, vp, lc, vc) := with_defaults lp0 vp0 in
+     coin_eq vc lc = true /\
      exists va', send (set_acct s to (Claw va')) t from to vc = (s', OK) /\
        ((accts s !! to = None /\ va' = new_account from vc start lp vp) \/
         (accts s !! to = Some Plain /\ funder va' = from /\ start_time va' = start /\
            lockup va' = lockup (new_account from vc start lp vp) /\
            vesting va' = vesting (new_account from vc start lp vp) /\
            original va' = vc /\ end_time va' = end_time (new_account from vc start lp vp) /\
-           dvest va' = ∅) \/
+           dvest va' = ∅ /\ dfree va' = cset ∅ bond deleg) \/
         (exists va, accts s !! to = Some (Claw va) /\ merge = true /\ from = funder va /\
                     add_grant bond va (gstart va start) lp vp vc deleg = Some va'))).
   Proof.
-    unfold convert. destruct (negb (basic_ok lp0 vp0)); [intros [= <- <-]; by left|].
+    unfold convert. destruct (basic_ok lp0 vp0); cbn [negb]; [|intros [= <- <-]; by left].
     destruct (blocked to); [intros [= <- <-]; by left|].
-    destruct (with_defaults lp0 vp0) as [[[lp vp] lc] vc].
-    destruct (negb _); [intros [= <- <-]; by left|].
+    destruct (with_defaults lp0 vp0) as [[[lp vp] lc] vc]. fold (coin_eq vc lc).
+    destruct (coin_eq vc lc); cbn [negb]; [|intros [= <- <-]; by left].
     destruct (accts s !! to) as [[|va]|] eqn:E.
     - intros H. apply wrap_send in H as [[-> H]|[H ->]]; [right|by left].
       repeat split; try done. eexists. split; [done|]. right. left.
@@ -228,14 +230,14 @@ Section KeeperProofs.
     destruct o; cbn [KeeperModel.step record] in *.
     - injection Hs as <-. cbn [accts]. intros b vb Hb. apply touch_claw in Hb. auto.
     - destruct (blocked to); [discriminate|]. intros b vb Hb. rewrite (send_claw _ _ _ _ _ _ _ _ Hs) in Hb. auto.
-    - apply create_shape in Hs as [[? _]|(_ & _ & Hs)]; [done|].
-      destruct (with_defaults _ _) as [[[lp' vp'] lc] vc]. destruct Hs as (va' & Hsend & Hk).
+    - apply create_shape in Hs as [[? _]|(_ & _ & _ & Hs)]; [done|].
+      destruct (with_defaults _ _) as [[[lp' vp'] lc] vc]. destruct Hs as (_ & va' & Hsend & Hk).
       intros b vb Hb. rewrite (send_claw _ _ _ _ _ _ _ _ Hsend) in Hb. cbn [set_acct accts] in Hb.
       destruct (decide (to = b)) as [->|Hne]; [|rewrite lookup_insert_ne in Hb by done; rewrite lookup_insert_ne by done; auto].
       rewrite lookup_insert in Hb; rewrite lookup_insert. injection Hb as <-.
       destruct Hk as [[_ ->]|(va & _ & _ & -> & Hg)]; [done|]. by rewrite (add_grant_funder _ _ _ _ _ _ _ Hg).
-    - apply convert_shape in Hs as [[? _]|(_ & _ & Hs)]; [done|].
-      destruct (with_defaults _ _) as [[[lp' vp'] lc] vc]. destruct Hs as (va' & Hsend & Hk).
+    - apply convert_shape in Hs as [[? _]|(_ & _ & _ & Hs)]; [done|].
+      destruct (with_defaults _ _) as [[[lp' vp'] lc] vc]. destruct Hs as (_ & va' & Hsend & Hk).
       intros b vb Hb. rewrite (send_claw _ _ _ _ _ _ _ _ Hsend) in Hb. cbn [set_acct accts] in Hb.
       destruct (decide (to = b)) as [->|Hne]; [|rewrite lookup_insert_ne in Hb by done; rewrite lookup_insert_ne by done; auto].
       rewrite lookup_insert in Hb; rewrite lookup_insert. injection Hb as <-.
@@ -362,8 +364,8 @@ Section KeeperProofs.
     let '(glp, gvp, _, gc) := with_defaults (of_pl lp) (of_pl vp) in
     exists va', accts s' !! to = Some (Claw va') /\ from = funder va /\ is_union va start glp gvp gc va'.
   Proof.
-    intros H Ha. cbn [KeeperModel.step] in H. apply create_shape in H as [[? _]|(_ & _ & H)]; [done|].
-    destruct (with_defaults _ _) as [[[glp gvp] lc] gc]. destruct H as (va' & Hsend & Hk).
+    intros H Ha. cbn [KeeperModel.step] in H. apply create_shape in H as [[? _]|(_ & _ & _ & H)]; [done|].
+    destruct (with_defaults _ _) as [[[glp gvp] lc] gc]. destruct H as (_ & va' & Hsend & Hk).
     destruct Hk as [[Hn _]|(va0 & Ha0 & _ & Hf & Hg)]; [congruence|].
     assert (va0 = va) as -> by congruence.
     exists va'. split; [|split; [done|by eapply add_grant_union]].
@@ -378,11 +380,221 @@ Section KeeperProofs.
     let '(glp, gvp, _, gc) := with_defaults (of_pl lp) (of_pl vp) in
     exists va', accts s' !! to = Some (Claw va') /\ from = funder va /\ is_union va start glp gvp gc va'.
   Proof.
-    intros H Ha. cbn [KeeperModel.step] in H. apply convert_shape in H as [[? _]|(_ & _ & H)]; [done|].
-    destruct (with_defaults _ _) as [[[glp gvp] lc] gc]. destruct H as (va' & Hsend & Hk).
+    intros H Ha. cbn [KeeperModel.step] in H. apply convert_shape in H as [[? _]|(_ & _ & _ & H)]; [done|].
+    destruct (with_defaults _ _) as [[[glp gvp] lc] gc]. destruct H as (_ & va' & Hsend & Hk).
     destruct Hk as [[Hn _]|[[Hn _]|(va0 & Ha0 & _ & Hf & Hg)]]; [congruence|congruence|].
     assert (va0 = va) as -> by congruence. cbn [gstart] in Hg.
     exists va'. split; [|split; [done|by eapply add_grant_union]].
     rewrite (send_claw _ _ _ _ _ _ _ _ Hsend). cbn [set_acct accts]. by rewrite lookup_insert.
   Qed.
 End KeeperProofs.
+
+(** * Reachable accounts are coherent; merged accounts release the sum *)
+Lemma bump_zero ps : lens_ok ps ->
+  lens_ok (bump ps 0) /\ total_len (bump ps 0) = total_len ps /\
+  (forall d, amt (total_amount (bump ps 0)) d = amt (total_amount ps) d) /\
+  (amts_ok ps -> amts_ok (bump ps 0)) /\
+  (forall d s t, evd d s (bump ps 0) t = evd d s ps t) /\
+  (Forall (fun p => 0 < len p) ps -> Forall (fun p => 0 < len p) (bump ps 0)).
+Proof.
+  intros Hl. destruct ps as [|p r]; cbn [bump]; [repeat split; auto|].
+  inversion Hl; subst. split; [|split; [|split; [|split; [|split]]]].
+  - constructor; cbn; [lia|done].
+  - rewrite !total_len_cons. cbn. lia.
+  - intros d. by rewrite !total_amount_cons.
+  - intros Ha. inversion Ha; subst. by constructor.
+  - intros d s t. cbn [evd len amount]. by replace (s + (len p + 0)) with (s + len p) by lia.
+  - intros Hp. inversion Hp; subst. constructor; cbn; [lia|done].
+Qed.
+
+Definition good (va : account) : Prop := coherent va /\ wf_acc va /\ dvest va = ∅.
+
+Lemma new_account_good f vc start lp vp :
+  lens_ok lp -> lens_ok vp -> amts_ok lp -> amts_ok vp -> nonneg vc ->
+  (forall d, amt vc d = amt (total_amount lp) d) -> (forall d, amt vc d = amt (total_amount vp) d) ->
+  good (new_account f vc start lp vp).
+Proof.
+  intros Hll Hvl Hla Hva Hvc Hl Hvv. unfold new_account, align. rewrite Z.min_id, Z.sub_diag.
+  destruct (bump_zero lp Hll) as (L1 & L2 & L3 & L4 & _). destruct (bump_zero vp Hvl) as (V1 & V2 & V3 & V4 & _).
+  split; [|split; [|done]].
+  - split; split; cbn [start_time end_time lockup vesting original]; try lia.
+    + intros d. by rewrite L3.
+    + intros d. by rewrite V3.
+  - constructor; cbn [lockup vesting original dfree dvest]; auto; apply nonneg_empty.
+Qed.
+
+Section Reach.
+  Variable blocked : N -> bool.
+  Variable bond : N.
+
+  Lemma cset_nonneg d v : 0 <= v -> nonneg (cset ∅ d v).
+  Proof. intros Hv d'. rewrite amt_cset, amt_empty. destruct (decide _); lia. Qed.
+
+  Lemma with_defaults_ok lp0 vp0 lp vp lc vc :
+    basic_ok lp0 vp0 = true -> amts_ok lp0 -> amts_ok vp0 ->
+    with_defaults lp0 vp0 = (lp, vp, lc, vc) ->
+    lens_ok lp /\ lens_ok vp /\ amts_ok lp /\ amts_ok vp /\ nonneg lc /\ nonneg vc /\
+    (forall d, amt lc d = amt (total_amount lp) d) /\ (forall d, amt vc d = amt (total_amount vp) d).
+  Proof.
+    intros Hb Hla Hva. unfold basic_ok in Hb. apply andb_prop in Hb as [Hb _]. apply andb_prop in Hb as [Hb _].
+    apply andb_prop in Hb as [Hbl Hbv].
+    assert (Hll : lens_ok lp0).
+    { apply Forall_forall. intros p Hp. rewrite forallb_forall in Hbl. apply elem_of_list_In, Hbl in Hp. lia. }
+    assert (Hvl : lens_ok vp0).
+    { apply Forall_forall. intros p Hp. rewrite forallb_forall in Hbv. apply elem_of_list_In, Hbv in Hp. lia. }
+    pose proof (total_amount_nonneg _ Hla) as Hnl. pose proof (total_amount_nonneg _ Hva) as Hnv.
+    unfold with_defaults.
+    assert (Hone : forall c, nonneg c -> lens_ok [mkp 0 c] /\ amts_ok [mkp 0 c] /\
+                              forall d, amt c d = amt (total_amount [mkp 0 c]) d).
+    { intros c Hc. split; [repeat constructor; cbn; lia|]. split; [by repeat constructor|].
+      intros d. rewrite total_amount_cons, total_amount_nil. cbn. lia. }
+    destruct (negb (is_zero (total_amount vp0)) && (length lp0 =? 0)%nat).
+    - destruct (Hone _ Hnv) as (A1 & A2 & A3).
+      destruct (negb (is_zero (total_amount vp0)) && (length vp0 =? 0)%nat); intros [= <- <- <- <-]; repeat split; auto.
+    - destruct (Hone _ Hnl) as (A1 & A2 & A3).
+      destruct (negb (is_zero (total_amount lp0)) && (length vp0 =? 0)%nat); intros [= <- <- <- <-]; repeat split; auto.
+  Qed.
+
+  (** keeper addGrant: coherent accounts stay coherent, and after both
+      schedules have started the merged account releases the sum *)
+  Lemma add_grant_good va gs glp gvp gc deleg va' :
+    add_grant bond va gs glp gvp gc deleg = Some va' ->
+    coherent va -> wf_acc va ->
+    lens_ok glp -> lens_ok gvp -> amts_ok glp -> amts_ok gvp -> nonneg gc -> 0 <= deleg ->
+    (forall d, amt gc d = amt (total_amount glp) d) -> (forall d, amt gc d = amt (total_amount gvp) d) ->
+    good va'.
+  Proof.
+    intros Hg [[Hl1 Hl2] [Hv1 Hv2]] Hwf Hgl Hgv Hal Hav Hgc Hdel Hcl Hcv.
+    pose proof (add_grant_union _ _ _ _ _ _ _ _ Hg) as (_ & _ & _ & _ & Ho & He).
+    revert Hg Ho He. unfold add_grant, disjunct.
+    rewrite Z.eqb_refl. cbn [negb]. intros [= <-]. cbn [start_time end_time lockup vesting original].
+    intros Ho He. split; [|split; [|done]].
+    - split; split; cbn [start_time end_time lockup vesting original]; try lia.
+      + intros d. rewrite amt_cadd, dj_total, Hl2, Hcl. done.
+      + intros d. rewrite amt_cadd, dj_total, Hv2, Hcv. done.
+    - destruct Hwf. constructor; cbn [lockup vesting original dfree dvest].
+      + apply (disjunct_lens (start_time va) gs); done.
+      + by apply dj_amts.
+      + apply (disjunct_lens (start_time va) gs); done.
+      + by apply dj_amts.
+      + by apply nonneg_cadd.
+      + by apply cset_nonneg.
+      + apply nonneg_empty.
+  Qed.
+
+  Theorem add_grant_releases_sum va gs glp gvp gc deleg va' :
+    add_grant bond va gs glp gvp gc deleg = Some va' ->
+    coherent va -> wf_acc va ->
+    lens_ok glp -> lens_ok gvp -> amts_ok glp -> amts_ok gvp -> nonneg gc -> 0 <= deleg ->
+    (forall d, amt gc d = amt (total_amount glp) d) -> (forall d, amt gc d = amt (total_amount gvp) d) ->
+    forall t d, Z.max (start_time va) gs < t ->
+      amt (get_unlocked va' t) d = amt (get_unlocked va t) d + amt (ev gs glp t) d /\
+      amt (get_vested va' t) d = amt (get_vested va t) d + amt (ev gs gvp t) d.
+  Proof.
+    intros Hg Hc Hwf Hgl Hgv Hal Hav Hgc Hdel Hcl Hcv t d Ht.
+    pose proof (add_grant_good _ _ _ _ _ _ _ Hg Hc Hwf Hgl Hgv Hal Hav Hgc Hdel Hcl Hcv) as (Hc' & Hwf' & _).
+    pose proof (add_grant_union _ _ _ _ _ _ _ _ Hg) as (_ & Hs & Hul & Huv & _ & _).
+    rewrite (unlocked_is_ev va' Hc' Hwf'), (vested_is_ev va' Hc' Hwf') by lia.
+    rewrite (unlocked_is_ev va Hc Hwf), (vested_is_ev va Hc Hwf) by lia.
+    specialize (Hul t d). specialize (Huv t d). rewrite !amt_ev in *. lia.
+  Qed.
+
+  Section Fixed.
+  Variable fixed : bool.
+  Notation step := (step blocked bond fixed).
+
+  (** what the environment guarantees of a message: sdk.Coins amounts are
+      non-negative, the observed staking amount is non-negative *)
+  Definition op_ok (o : op) : Prop :=
+    match o with
+    | Create _ _ _ _ lp vp _ deleg | Convert _ _ _ _ lp vp _ deleg =>
+        amts_ok (of_pl lp) /\ amts_ok (of_pl vp) /\ 0 <= deleg
+    | _ => True
+    end.
+
+  Definition all_good (s : kstate) : Prop := forall a va, accts s !! a = Some (Claw va) -> good va.
+
+  Lemma grant_good s from to start lp0 vp0 deleg lp vp lc vc va' :
+    all_good s -> basic_ok lp0 vp0 = true -> amts_ok lp0 -> amts_ok vp0 -> 0 <= deleg ->
+    with_defaults lp0 vp0 = (lp, vp, lc, vc) -> coin_eq vc lc = true ->
+    forall gs,
+    ((accts s !! to = None /\ va' = new_account from vc start lp vp) \/
+     (accts s !! to = Some Plain /\ funder va' = from /\ start_time va' = start /\
+           lockup va' = lockup (new_account from vc start lp vp) /\
+           vesting va' = vesting (new_account from vc start lp vp) /\
+           original va' = vc /\ end_time va' = end_time (new_account from vc start lp vp) /\
+           dvest va' = ∅ /\ dfree va' = cset ∅ bond deleg) \/
+     (exists va, accts s !! to = Some (Claw va) /\ add_grant bond va gs lp vp vc deleg = Some va')) ->
+    good va'.
+  Proof.
+    intros Hall Hb Hla Hva Hdel Hwd Heq gs Hk.
+    destruct (with_defaults_ok _ _ _ _ _ _ Hb Hla Hva Hwd) as (L1 & L2 & L3 & L4 & L5 & L6 & L7 & L8).
+    pose proof (proj1 (coin_eq_spec _ _ L6 L5) Heq) as Hvl.
+    assert (Hvc : forall d, amt vc d = amt (total_amount lp) d) by (intros d; by rewrite Hvl).
+    pose proof (new_account_good from vc start lp vp L1 L2 L3 L4 L6 Hvc L8) as Hnew.
+    destruct Hk as [[_ ->]|[(_ & Hf & Hs & Hlk & Hvs & Ho & He & Hdv & Hdf)|(va & Ha & Hg)]]; [done| |].
+    - destruct Hnew as ([[N1 N2] [N3 N4]] & Hw & _). split; [|split; [|done]].
+      + split; split; rewrite ?Hs, ?Hlk, ?Hvs, ?Ho, ?He; cbn [start_time original] in *; auto.
+      + destruct Hw. constructor; rewrite ?Hlk, ?Hvs, ?Ho, ?Hdv, ?Hdf; auto;
+          try (by apply cset_nonneg); try apply nonneg_empty.
+    - destruct (Hall _ _ Ha) as (Hc & Hw & _). by eapply add_grant_good.
+  Qed.
+
+  Lemma step_good s o s' r : op_ok o -> all_good s -> step s o = (s', r) -> all_good s'.
+  Proof.
+    intros Hok Hall Hs. destruct (N.eq_dec r OK) as [->|Hr]; [|by rewrite (step_fail _ _ _ _ _ _ _ Hs Hr)].
+    destruct o; cbn [KeeperModel.step] in Hs; cbn [op_ok] in Hok.
+    - injection Hs as <-. intros b vb Hb. cbn [accts] in Hb. apply touch_claw in Hb. eauto.
+    - destruct (blocked to); [discriminate|]. intros b vb Hb. rewrite (send_claw _ _ _ _ _ _ _ _ Hs) in Hb. eauto.
+    - destruct Hok as (Hla & Hva & Hdel).
+      apply create_shape in Hs as [[? _]|(_ & _ & Hb & Hs)]; [done|].
+      destruct (with_defaults _ _) as [[[lp' vp'] lc] vc] eqn:Hwd. destruct Hs as (Heq & va' & Hsend & Hk).
+      intros b vb Hb'. rewrite (send_claw _ _ _ _ _ _ _ _ Hsend) in Hb'. cbn [set_acct accts] in Hb'.
+      destruct (decide (to = b)) as [->|Hne]; [|rewrite lookup_insert_ne in Hb' by done; eauto].
+      rewrite lookup_insert in Hb'. injection Hb' as <-.
+      eapply (grant_good s from b start _ _ deleg lp' vp' lc vc va' Hall Hb Hla Hva Hdel Hwd Heq start).
+      destruct Hk as [?|(va & ? & _ & _ & ?)]; [by left|right; right; eauto].
+    - destruct Hok as (Hla & Hva & Hdel).
+      apply convert_shape in Hs as [[? _]|(_ & _ & Hb & Hs)]; [done|].
+      destruct (with_defaults _ _) as [[[lp' vp'] lc] vc] eqn:Hwd. destruct Hs as (Heq & va' & Hsend & Hk).
+      intros b vb Hb'. rewrite (send_claw _ _ _ _ _ _ _ _ Hsend) in Hb'. cbn [set_acct accts] in Hb'.
+      destruct (decide (to = b)) as [->|Hne]; [|rewrite lookup_insert_ne in Hb' by done; eauto].
+      rewrite lookup_insert in Hb'. injection Hb' as <-.
+      destruct Hk as [?|[?|(va & ? & _ & _ & ?)]].
+      + eapply (grant_good s from b start _ _ deleg lp' vp' lc vc va' Hall Hb Hla Hva Hdel Hwd Heq start). by left.
+      + eapply (grant_good s from b start _ _ deleg lp' vp' lc vc va' Hall Hb Hla Hva Hdel Hwd Heq start).
+        right; left. done.
+      + eapply (grant_good s from b start _ _ deleg lp' vp' lc vc va' Hall Hb Hla Hva Hdel Hwd Heq).
+        right; right; eauto.
+    - apply clawback_shape in Hs as [[? _]|(_ & _ & va & va' & c & Ha & Hf & Hc & Hk)]; [done|].
+      destruct Hk as [[_ ->]|[_ Hsend]]; [done|].
+      intros b vb Hb. rewrite (send_claw _ _ _ _ _ _ _ _ Hsend) in Hb. cbn [set_acct accts] in Hb.
+      destruct (decide (a = b)) as [->|Hne]; [|rewrite lookup_insert_ne in Hb by done; eauto].
+      rewrite lookup_insert in Hb. injection Hb as <-.
+      destruct (Hall _ _ Ha) as (Hco & Hw & Hdv).
+      destruct (clawback_coherent va Hco Hw t va' c Hc) as [Hco' Hw']. split; [done|split; [done|]].
+      rewrite (compute_clawback_eq va Hco Hw t) in Hc. by injection Hc as <- _.
+    - apply update_funder_shape in Hs as [[? _]|(_ & _ & _ & va & Ha & Hf & ->)]; [done|].
+      intros b vb Hb. cbn [set_acct accts] in Hb.
+      destruct (decide (a = b)) as [->|Hne]; [|rewrite lookup_insert_ne in Hb by done; eauto].
+      rewrite lookup_insert in Hb. injection Hb as <-. destruct (Hall _ _ Ha) as ([[? ?] [? ?]] & [] & ?).
+      split; [by repeat split|]. split; [by constructor|done].
+    - apply convert_back_shape in Hs as [[? _]|(_ & va & Ha & ->)]; [done|].
+      intros b vb Hb. cbn [set_acct accts] in Hb.
+      destruct (decide (a = b)) as [->|Hne]; [by rewrite lookup_insert in Hb|rewrite lookup_insert_ne in Hb by done; eauto].
+  Qed.
+
+  (** After every history of well-formed messages, every stored vesting
+      account is coherent: its schedules add up to its original vesting and end
+      by its end time, all lengths and amounts are non-negative, and no
+      DelegatedVesting is recorded.  Hence all reading theorems of
+      AccountProofs apply to it. *)
+  Theorem reachable_good ops : Forall op_ok ops -> all_good (run blocked bond fixed ops kinit).
+  Proof.
+    unfold run. assert (H0 : all_good kinit) by (intros a va H; cbn in H; by rewrite lookup_empty in H).
+    revert H0. generalize kinit. induction ops as [|o r IH]; intros s Hs Hok; cbn [fold_left]; [done|].
+    inversion Hok; subst. apply IH; [|done].
+    destruct (step s o) as [s' res] eqn:E. cbn [fst]. by eapply step_good.
+  Qed.
+  End Fixed.
+End Reach.
